@@ -191,7 +191,7 @@ def count_lines(path):
     return n
 
 
-def run_executor(exe, driver, scen, trace, shards=NCPU, timeout_s=60, wall=3000):
+def run_executor(exe, driver, scen, trace, shards=NCPU, timeout_s=60, wall=3000, isolate=False):
     """Run the executor over scen (ndjson) in parallel shards; concatenated trace in scenario order."""
     lines = open(scen).read().splitlines()
     lines = [l for l in lines if l.strip()]
@@ -213,7 +213,7 @@ def run_executor(exe, driver, scen, trace, shards=NCPU, timeout_s=60, wall=3000)
         parts.append((sp, "%s.part%d" % (trace, k)))
 
     def one(pt):
-        return sh([exe, driver, pt[0], pt[1], "--timeout", str(timeout_s)], timeout=wall,
+        return sh([exe, driver, pt[0], pt[1], "--timeout", str(timeout_s), "--isolate", "1" if isolate else "0"], timeout=wall,
                   env={"ASAN_OPTIONS": "detect_leaks=0:abort_on_error=0:exitcode=66", "UBSAN_OPTIONS": "print_stacktrace=1:halt_on_error=1:exitcode=67"})
     with cf.ThreadPoolExecutor(len(parts)) as ex:
         res = list(ex.map(one, parts))
